@@ -282,15 +282,61 @@ def view_rule(rep, prog):
     rep.floor("view mutators", 7, len(muts))
 
 
+def reset_rule(rep, prog):
+    rid = rep.rule("R5", "reset restores the default view: both centre overrides (custom_lat, custom_long) become None and scale becomes the configured scale, so by R3 the receiver is back at the centre")
+    f = prog.fns.get("radar::Settings::reset")
+    adt = prog.adts.get("radar::Settings")
+    if f is None or adt is None:
+        rep.violation("R5", "anchor:reset", "anchor missing: radar::Settings::reset")
+        return
+    ip = entry.new_interp(prog, max_seconds=60, merge_returns=False)
+    st = State()
+
+    # tagged record: every field unknown, tagged with its dotted path from the Settings value
+    def mk(tyj, prefix):
+        a = prog.adts.get(tyj["path"]) if isinstance(tyj, dict) and tyj.get("k") == "adt" else None
+        if a is not None and a["kind"] == "struct" and tyj["path"].startswith("radar::"):
+            return AdtVal(tyj["path"], 0, [mk(fl["ty"], prefix + fl["name"] + ".") for fl in a["variants"][0]["fields"]], vname=a["variants"][0]["name"])
+        return top_of(tyj, tags=frozenset([("existing", prefix.rstrip("."))]))
+    rec = mk({"k": "adt", "path": "radar::Settings", "args": []}, "")
+    sloc = st.new_heap(rec)
+    outs = ip.run_function(f, [RefVal(sloc, True)], st)
+    names = [fl["name"] for fl in adt["variants"][0]["fields"]]
+    n = 0
+    for o in outs:
+        n += 1
+        s2 = o.heap[sloc[1]]
+        for fld in ("custom_lat", "custom_long"):
+            if fld not in names:
+                rep.violation("R5", "anchor:%s" % fld, "Settings has no field %s" % fld)
+                continue
+            v = s2.fields[names.index(fld)]
+            rep.instance(rid, fld, sample={"field": fld, "after_reset": repr(v)[:60]})
+            if not (isinstance(v, AdtVal) and v.path == "core::option::Option" and v.variant == 0):
+                rep.violation("R5", "reset:%s:not-restored" % fld, "after Settings::reset the centre override %s is %r, not None: a pan survives the reset and the receiver is not back at the centre" % (fld, v))
+        if "scale" in names:
+            v = s2.fields[names.index("scale")]
+            rep.instance(rid, "scale", sample={"after_reset": repr(getattr(v, "term", v))[:60]})
+            if not (isinstance(v, FloatVal) and v.term == ("sym", "existing:opts.scale")):
+                rep.violation("R5", "reset:scale:not-restored", "after Settings::reset the scale is %r, not the configured opts.scale" % (getattr(v, "term", v),))
+        for i, fld in enumerate(names):
+            if fld in ("custom_lat", "custom_long", "scale"):
+                continue
+            if fp(s2.fields[i]) != fp(rec.fields[i]):
+                rep.violation("R5", "reset:%s:changed" % fld, "Settings::reset changes %s" % fld)
+    rep.floor("reset outcomes", 1, n)
+
+
 def run(rep, tier, replay=None):
     prog = facts.load("std")
     table_rule(rep, prog)
     stats_rule(rep, prog)
     projection_rule(rep, prog)
     view_rule(rep, prog)
+    reset_rule(rep, prog)
     rep.assume("NOT decided: what ratatui draws (cell mapping, clipping), numeric proportionality of offsets, terminal output")
     rep.assume("scale > 0 (CLI default, multiplicative zoom)")
     return rep.finish(
         "Structural skeleton only. R1: build_tab_airplanes is interpreted on a tracker holding one record with named symbolic values; the ten cells handed to Row::new are "
         "matched column by column with the record's values (and blanks without a position). R2: Stats::update interpreted for Added::Yes/No. R3: to_xy's polynomial normal "
-        "forms: x = k*scale*(lon - centre lon), y = k*scale*(g(lat) - g(centre lat)) with positive k, independent of the other coordinate, centre -> (0,0). R4: field-writer sets of the view mutators.")
+        "forms: x = k*scale*(lon - centre lon), y = k*scale*(g(lat) - g(centre lat)) with positive k, independent of the other coordinate, centre -> (0,0). R4: field-writer sets of the view mutators. R5: the assignments of Settings::reset.")
